@@ -68,14 +68,24 @@ def check_polar(ctx, KL, b, tol_rel, tag, wit):
     return Kf
 
 
-def check_cartesian(ctx, KL, rng, max_nr):
+# obscuration / size classes that are always present (spread over the shards): a vanishing but non-zero obscuration on an odd
+# grid (a pixel centre at r = 0 lies inside the hole), pixel centres exactly on an edge, truthy masks of several types
+HOSTILE_CART = [(1e-8, 17, True), (5e-9, 33, 1), (1e-3, 31, np.bool_(True)), (0.4, 25, True), (0.25, 16, 1), (0.5, 32, np.bool_(True)),
+                (1e-8, 9, 1), (0.2, 65, True)]
+
+
+def check_cartesian(ctx, KL, rng, max_nr, forced=None):
     ri = float(rng.choice([0.05, 0.1, 0.2, 0.25, 0.33, 0.5, 0.8, rng.uniform(0.05, 0.8), 1e-8, 1e-3]))
     nr = int(rng.integers(10, max_nr + 1))
     dim = int(rng.choice([16, 17, 24, 31, 32, 33, 47, 48, 63, 64, 65, 100, 128]))
+    if forced is not None:
+        ri, dim = float(forced[0]), int(forced[1])
     npp = int(2 * np.pi * nr)
     nmax = int(rng.integers(3, max(4, nr * npp // 15)))
     nmax = min(nmax, 40)
     mask_arg = [True, True, 1, np.bool_(True), False, 0, np.bool_(False)][int(rng.integers(0, 7))]   # truthy / falsy in several types
+    if forced is not None:
+        mask_arg = forced[2]
     mask = bool(mask_arg)
     wit = {"ri": ri, "nr": nr, "nmax": nmax, "dim": dim, "mask": repr(mask_arg)}
     ctx.count("cartesian_renderings")
@@ -154,6 +164,9 @@ def run(ctx, spec):
             check_polar(ctx, KL, b, 1e-10, "native_grid" + (":repeat" if rep else ""), wit)
     for c in range(spec["cart"]):
         check_cartesian(ctx, KL, rng, min(spec["max_nr"], 20))
+    for k, forced in enumerate(HOSTILE_CART):
+        if k % 16 == spec["shard"]:
+            check_cartesian(ctx, KL, rng, min(spec["max_nr"], 20), forced=forced)
     # radial samplings whose float arithmetic is awkward (mgrid step rounding in rebin, a squared distance that rounds
     # below zero in the kernel): always present, spread over the shards
     awkward = spec.get("awkward", [])
